@@ -118,7 +118,7 @@ def make_call(desc):
     if k == "from_bank_code":
         return lambda: str(BIC.from_bank_code(desc["cc"], desc["code"]))
     if k == "generate":
-        return lambda: str(IBAN.generate(desc["cc"], desc["bank"], desc["account"]))
+        return lambda: str(IBAN.generate(desc["cc"], desc["bank"], desc["account"], desc.get("branch", "")))
     raise ValueError(k)
 
 
